@@ -746,3 +746,204 @@ def If_present(present, got, val):
     if got is None:
         return Not(present)
     return And(present, got is val)
+
+
+# =============================================================================================== R11
+F_C15_1 = 'F-C15-1'
+STATES = [None, 'a', 'b', '']              # present values of the field (None = present with a null); + "absent"
+CRITERIA = ('unset', 'PRESENT', 'ABSENT', 'callback', "literal 'a'", "literal ''")
+
+
+def _mk_cause(changing):
+    base = causes.ChangingCause if changing else causes.WatchingCause
+
+    class Cause(base):
+        """The real cause class (the filters test isinstance), with `kwargs` counted instead of built from the object."""
+        @property
+        def kwargs(self):
+            self.__dict__['kwargs_built'] = self.__dict__.get('kwargs_built', 0) + 1
+            return dict(self.KW)
+    common = dict(logger=NullLogger(), indices=Opaque('indices'), memo=Opaque('memo'), resource=Opaque('resource'),
+                  patch=Opaque('patch'), body=Opaque('cause.body'))
+    if changing:
+        c = Cause(**common, initial=False, reason=R.UPDATE, diff=Opaque('diff'), old=Opaque('cause.old'), new=Opaque('cause.new'))
+    else:
+        c = Cause(**common, type='MODIFIED', event={})
+    c.__dict__['KW'] = {'body': Opaque('kwarg:body'), 'old': Opaque('kwarg:old')}
+    c.__dict__['kwargs_built'] = 0
+    return c
+
+
+class _FieldWorld:
+    """dicts.resolve(d, field, default) by contract: the value at `field` in `d`, or `default` when it is absent (d None,
+    a missing key or a non-mapping on the way).  The state of the field in each source (cause.old / cause.new / cause.body)
+    is arbitrary over absent / null / 'a' / 'b' / ''."""
+    def __init__(self, vc, cause, field):
+        self.vc, self.cause, self.field = vc, cause, field
+        self.states, self.token, self.calls, self.bad = {}, None, [], []
+
+    def resolve(self, d, field, default=registries._UNSET.token):
+        c = self.cause
+        src = 'old' if d is getattr(c, 'old', self) else 'new' if d is getattr(c, 'new', self) else 'body' if d is c.body else None
+        self.calls.append(src)
+        if src is None or not (field is self.field or field == self.field):
+            self.bad.append((src, field))
+        if self.token is None:
+            self.token = default
+        elif default is not self.token:
+            self.bad.append(('default changed',))
+        if default is None or isinstance(default, (str, SV)):
+            self.bad.append(('default is a possible value of the field',))
+        if src not in self.states:
+            self.states[src] = self.vc.fin(f'{src} state of the field', [default] + STATES)
+        return self.states[src]
+
+    def absent(self, st):
+        return vc_is(st, self.token)
+
+    def state(self, src):
+        """The state of the field in a source the code never looked at: still arbitrary."""
+        if src not in self.states:
+            self.states[src] = self.vc.fin(f'{src} state of the field', [self.token if self.token is not None else registries._UNSET.token] + STATES)
+            if self.token is None:
+                self.token = registries._UNSET.token
+        return self.states[src]
+
+
+class _ValueCallback:
+    """A per-value callback: an arbitrary function of the value it is given (None / 'a' / 'b' / '') -- the same value gives the
+    same answer; the kwargs do not vary within one match."""
+    def __init__(self, vc, name, world):
+        self.world, self.calls = world, []
+        self.table = {s: vc.bool(f'{name}({s!r})') for s in STATES}
+
+    def of(self, v):
+        """The callback's answer for the value v (None stands for None and for absent alike)."""
+        if v is None:
+            return self.table[None]
+        return Or(*[And(vc_is(v, s) if s is None else Eq(v, s), self.table[s]) for s in STATES])
+
+    def of_state(self, st):
+        return Or(And(self.world.absent(st), self.table[None]), And(Not(self.world.absent(st)), self.of(st)))
+
+    def __call__(self, *a, **kw):
+        self.calls.append((a, dict(kw)))
+        return self.of(a[0]) if len(a) == 1 else False
+
+
+def _criterion(vc, name, world, n):
+    """-> (the handler attribute, holds(state)) for criterion kind n of CRITERIA."""
+    if n == 0:
+        return None, None
+    if n == 1:
+        return PRESENT, lambda st: Not(world.absent(st))
+    if n == 2:
+        return ABSENT, lambda st: world.absent(st)
+    if n == 3:
+        cb = _ValueCallback(vc, name, world)
+        return cb, cb.of_state
+    lit = 'a' if n == 4 else ''
+    return lit, lambda st: Eq(st, lit)
+
+
+def _check_value_callbacks(vc, world, cause, cbs, kwargs, pre):
+    want_kw = pre if pre is not None else cause.KW
+    for cb in cbs:
+        for a, kw in cb.calls:
+            vc.ensure('callback_arguments', len(a) == 1 and _same_kwargs(kw, want_kw))
+            if len(a) == 1:
+                vc.ensure('callback_arguments', Not(vc_is(a[0], world.token)))       # "None if the value is absent"
+                vc.ensure('callback_arguments', a[0] is None or any(a[0] is st for st in world.states.values()))
+    vc.ensure('kwargs_built_at_most_once', cause.kwargs_built <= (1 if pre is None else 0))
+    vc.ensure('kwargs_built_at_most_once', _same_kwargs(kwargs, want_kw) or (pre is None and kwargs == {} and not any(cb.calls for cb in cbs)))
+    vc.ensure('frame', not world.bad)
+
+
+@harness('R11', targets=[f'{REG}._matches_field_values', f'{REG}._matches_field_changes'], props=['C15'],
+         clauses=['no_field_no_criterion', 'value_on_current_state', 'value_on_old_or_new_for_updates', 'value_on_body_state',
+                  'change_criteria', 'not_applicable', 'callback_arguments', 'kwargs_built_at_most_once', 'frame'],
+         canaries=['canary.always_matches', 'canary.never_matches'],
+         trusted=['dicts.resolve(d, field, default): the value at the field or `default` when absent (contract of _FieldWorld)'],
+         assumes=['the state of the field in the old / new essence and in the body ranges over absent, null, "a", "b", ""; '
+                  'criteria over unset, PRESENT, ABSENT, an arbitrary per-value callback, the literals "a" and ""'])
+def R11(vc):
+    """
+    docs/filters.rst "Field filters" / "Change filters" / "Value callbacks", for an arbitrary state of the field in the
+    last-handled (old) essence, the current (new) essence and the body, and every kind of criterion:
+      holds(criterion, state):  unset == PRESENT: the field is present (null counts);  ABSENT: it is absent;
+                                literal: present and equal;  callback f: f(None if absent else value, **kwargs).
+    _matches_field_values(handler, cause, kwargs):
+      no field=                                       -> True, nothing consulted              [no_field_no_criterion]
+      update handlers (@on.update/@on.field: field_needs_change) on a changing cause:
+                                                      holds(value, old) or holds(value, new)   [value_on_old_or_new_for_updates]
+      every other changing handler (create/resume/delete): holds(value, new) -- "the resource in its current
+                                                      ---and only--- state"                     [value_on_current_state]
+          KNOWN FINDING F-C15-1: the code also accepts holds(value, old) for these (excused exactly for that class).
+      non-changing causes (event/index/daemon/timer/webhook): holds(value, state in the body)  [value_on_body_state]
+    _matches_field_changes(handler, cause, kwargs):
+      not a changing handler / not a changing cause / no field=  -> True                       [not_applicable]
+      else (field_needs_change => old state != new state, a presence change counts)
+           and (old= unset or holds(old=, old state)) and (new= unset or holds(new=, new state))   [change_criteria]
+    Callbacks get exactly one positional value -- None for an absent field, never the internal marker -- and the cause's
+    kwargs, which are built at most once and shared through the kwargs dict.
+    """
+    part = vc.nondet(2, '_matches_field_values | _matches_field_changes')
+    changing = vc.nondet(2, 'changing handler+cause | other handler+cause') == 0
+    field = [('spec', 'x'), None, ()][vc.nondet(3, 'field: set | None | empty')]
+    cause = _mk_cause(changing)
+    world = _FieldWorld(vc, cause, field)
+    kwargs, pre = _draw_kwargs(vc)
+    crit = dict(selector=None, labels=None, annotations=None, when=None, field=field)
+    fnc = vc.fin('h.field_needs_change', [None, False, True])
+    update_like = truthy(fnc)
+    if part == 0:
+        value, holds = _criterion(vc, 'value', world, vc.nondet(6, 'value= ' + ' | '.join(CRITERIA)))
+        if holds is None:
+            holds = lambda st: Not(world.absent(st))       # "equivalent to value=kopf.PRESENT"
+        if changing:
+            h = handlers.ChangingHandler(**_common('h'), **crit, value=value, reason=vc.fin('h.reason', [None, R.CREATE, R.UPDATE, R.DELETE]),
+                                         initial=None, deleted=None, requires_finalizer=None, field_needs_change=fnc, old=None, new=None)
+        else:
+            h = handlers.WatchingHandler(**_common('h'), **crit, value=value)
+        res = vc.load(REG, '_matches_field_values', stubs={'dicts.resolve': world.resolve}).fn(h, cause, kwargs)
+        cbs = [value] if isinstance(value, _ValueCallback) else []
+        if not field:
+            vc.ensure('no_field_no_criterion', truthy(res))
+            vc.ensure('no_field_no_criterion', not world.calls and cause.kwargs_built == 0 and not any(cb.calls for cb in cbs))
+            return ('values', 'no field')
+        if changing:
+            on_old, on_new = holds(world.state('old')), holds(world.state('new'))
+            vc.ensure('value_on_old_or_new_for_updates', Implies(update_like, Iff(truthy(res), Or(on_old, on_new))))
+            vc.ensure('value_on_current_state', Implies(Not(update_like), Iff(truthy(res), on_new)),
+                      excuse={F_C15_1: And(Not(update_like), Iff(truthy(res), Or(on_old, on_new)))})
+        else:
+            vc.ensure('value_on_body_state', Iff(truthy(res), holds(world.state('body'))))
+            vc.ensure('value_on_body_state', all(c == 'body' for c in world.calls))
+        _check_value_callbacks(vc, world, cause, cbs, kwargs, pre)
+        vc.canary('canary.always_matches', truthy(res))
+        vc.canary('canary.never_matches', Not(truthy(res)))
+        return ('values', changing)
+    # ---- _matches_field_changes
+    old_c, holds_old = _criterion(vc, 'old', world, vc.nondet(6, 'old= ' + ' | '.join(CRITERIA)))
+    new_c, holds_new = _criterion(vc, 'new', world, vc.nondet(6, 'new= ' + ' | '.join(CRITERIA)))
+    if changing:
+        h = handlers.ChangingHandler(**_common('h'), **crit, value=None, reason=vc.fin('h.reason', [None, R.UPDATE]),
+                                     initial=None, deleted=None, requires_finalizer=None, field_needs_change=fnc, old=old_c, new=new_c)
+    else:
+        h = handlers.WatchingHandler(**_common('h'), **crit, value=None)
+        h.__dict__.update(old=old_c, new=new_c, field_needs_change=fnc)      # even if present: not change criteria of such handlers
+    res = vc.load(REG, '_matches_field_changes', stubs={'dicts.resolve': world.resolve}).fn(h, cause, kwargs)
+    cbs = [c for c in (old_c, new_c) if isinstance(c, _ValueCallback)]
+    if not changing or not field:
+        vc.ensure('not_applicable', truthy(res))
+        vc.ensure('not_applicable', cause.kwargs_built == 0 and not any(cb.calls for cb in cbs))
+        return ('changes', 'n/a')
+    old_st, new_st = world.state('old'), world.state('new')
+    changed = Not(Eq(old_st, new_st))
+    want = And(Or(Not(update_like), changed),
+               True if holds_old is None else holds_old(old_st),
+               True if holds_new is None else holds_new(new_st))
+    vc.ensure('change_criteria', Iff(truthy(res), want))
+    _check_value_callbacks(vc, world, cause, cbs, kwargs, pre)
+    vc.canary('canary.always_matches', truthy(res))
+    return ('changes', changing)
